@@ -455,6 +455,12 @@ func c05ScionGates(p *ana.Prog, r *ana.Result, fn *ssa.Function) []gateSpec {
 			n++
 		}
 		return n == 2, true
+	}), ana.FindGateAny(p, fn, "last-layer-in-{UDP,SCMP}", func(c ana.Cmp, isCmp bool, _ ssa.Value) (bool, bool) {
+		// any spelling (De Morgan, negated flag): by truth table of the tested condition
+		if isCmp && c.Op == token.EQL && (layerCmp(c, "LayerTypeSCIONUDP") || layerCmp(c, "LayerTypeSCMP")) {
+			return true, true
+		}
+		return false, false
 	}))})
 	// last layer != SCMP
 	gs = append(gs, gateSpec{name: "last-layer-not-SCMP", gate: ana.FindGate(p, fn, "last-layer-not-SCMP", func(c ana.Cmp, isCmp bool, _ ssa.Value) (bool, bool) {
